@@ -1,6 +1,7 @@
 """Generated modules whose doctests have by-construction outcomes (shared by C10, C15, C11)."""
 
-KINDS = ['pass', 'fail_output', 'fail_exc', 'all_skipped', 'partly_skipped', 'expected_exc', 'disabled', 'comment_only']
+KINDS = ['pass', 'fail_output', 'fail_exc', 'all_skipped', 'partly_skipped', 'expected_exc', 'disabled', 'comment_only',
+         'note_then_skip', 'skip_then_note']
 DISABLE_WORDS = ['# DISABLE_DOCTEST', '#DISABLE', '#  unstable', '# FAILING', '#SCRIPT', '# slow_doctest']
 
 
@@ -20,6 +21,10 @@ def doc_lines(kind, n):
         return [">>> raise KeyError('k%d')" % n, 'Traceback (most recent call last):', "KeyError: 'k%d'" % n]
     if kind == 'disabled':
         return ['>>> ' + DISABLE_WORDS[n % len(DISABLE_WORDS)], ">>> print('d%d')" % n, 'WRONG%d' % n]
+    if kind == 'note_then_skip':
+        return ['>>> # a remark %d' % n, '>>> # xdoctest: +SKIP', ">>> print('n%d')" % n, 'never compared']
+    if kind == 'skip_then_note':
+        return [">>> print('k%d')  # xdoctest: +SKIP" % n, 'k%d' % n, '>>> # a trailing remark']
     if kind == 'comment_only':
         return ['>>> # nothing but a comment %d' % n]
     raise KeyError(kind)
@@ -27,7 +32,8 @@ def doc_lines(kind, n):
 
 # verdict when the doctest is run
 VERDICT = {'pass': 'passed', 'fail_output': 'failed', 'fail_exc': 'failed', 'all_skipped': 'skipped',
-           'partly_skipped': 'passed', 'expected_exc': 'passed', 'disabled': 'failed', 'comment_only': 'skipped'}
+           'partly_skipped': 'passed', 'expected_exc': 'passed', 'disabled': 'failed', 'comment_only': 'skipped',
+           'note_then_skip': 'skipped', 'skip_then_note': 'skipped'}
 
 
 def module_source(kinds, layout='functions'):
